@@ -207,6 +207,99 @@ def sweep_heading(cls):
     return None
 
 
+# ---- heading sections (doc / docx / odt): every body paragraph lands in the unit of ITS section ------------------
+# A document is a list of paragraphs [kind, text]: kind "h1"/"h2" = heading of that outline level, "p" = body.
+# Spec (statement): headings with non-empty text split the body into sections, in order; the non-empty body
+# paragraphs of one section are the text of exactly one unit ("\n"-joined), no unit holds text of two sections,
+# units numbered 1..m.  Units without text (heading-only sections) are allowed: their heading is their heading path.
+HEAD_TEXT = {"DocContent": {"h1": "Chapter One", "h2": "Subsection One"}, "DocxContent": {"h1": "Item", "h2": "Sub"},
+             "OdtContent": {"h1": "Item", "h2": "Sub"}}
+
+
+def build_heading_doc(cls, paras):
+    dt = _dt()
+    if cls == "DocxContent":
+        ps = [dt.DocxParagraph(text=t, style=("Normal" if k == "p" else f"Heading {k[1]}")) for k, t in paras]
+        return dt.DocxContent(paragraphs=ps, full_text="\n".join(p.text for p in ps))
+    if cls == "OdtContent":
+        ps = [dt.OdtParagraph(text=t, outline_level=(None if k == "p" else int(k[1]))) for k, t in paras]
+        return dt.OdtContent(paragraphs=ps, full_text="\n".join(p.text for p in ps))
+    return dt.DocContent(main_text="\n".join(t for _k, t in paras))
+
+
+def section_spec(paras):
+    """-> (list of section body texts that are non-empty, in order, has_heading)"""
+    secs, cur, has = [], [], False
+    for k, t in paras:
+        if k != "p" and t.strip():
+            has = True
+            secs.append(cur)
+            cur = []
+        elif k == "p" and t.strip():
+            cur.append(t.strip())
+    secs.append(cur)
+    return ["\n".join(x) for x in secs if x], has
+
+
+def section_features(cls, paras):
+    """Features of a document shape used by recorded findings (known_findings.json, `exclusion`)."""
+    f = set()
+    first_h = next((i for i, (k, t) in enumerate(paras) if k != "p" and t.strip()), None)
+    if first_h is not None and any(k == "p" and t.strip() for k, t in paras[:first_h]):
+        f.add("body-before-first-heading")
+    if any(k != "p" and not t.strip() for k, t in paras):
+        f.add("heading-without-text")
+    return sorted(f)
+
+
+def check_sections(cls, paras):
+    paras = [tuple(x) for x in paras]
+    c = build_heading_doc(cls, paras)
+    obs = observe(c)
+    want, has = section_spec(paras)
+    nums = [n for n, _t in obs]
+    inputs = {"class": cls, "paragraphs": [list(x) for x in paras], "features": section_features(cls, paras)}
+    if nums != list(range(1, len(nums) + 1)):
+        return {"target": f"data_types.py::{cls}.iterate_units", "inputs": inputs, "expected": "unit numbers 1..m",
+                "observed": repr(obs), "check": "sections"}
+    if not has:
+        ok = len(obs) == 1
+        want_s = "one unit for a document without headings"
+    else:
+        got = [t.strip() for _n, t in obs if t.strip()]
+        ok = got == want
+        want_s = f"the non-empty unit texts are the section bodies in order: {want!r}"
+    if not ok:
+        return {"target": f"data_types.py::{cls}.iterate_units", "inputs": inputs, "expected": want_s, "observed": repr(obs), "check": "sections"}
+    return None
+
+
+def section_docs(cls, max_len=5):
+    H = HEAD_TEXT[cls]
+    pool = [("h1", H["h1"]), ("h2", H["h2"]), ("p", None), ("p", "")]
+    if cls != "DocContent":
+        pool.append(("h1", ""))
+    for n in range(0, max_len + 1):
+        for kinds in itertools.product(pool, repeat=n):
+            yield [(k, (f"body {i}" if t is None else t)) for i, (k, t) in enumerate(kinds)]
+
+
+def sweep_sections(cls, exclude=(), collect=False):
+    """First failing document whose features are not all excluded (recorded findings); with collect=True the list of
+    (features, first failing doc) per feature set."""
+    seen = {}
+    for paras in section_docs(cls):
+        feats = section_features(cls, paras)
+        if feats and set(feats) & set(exclude) and not collect:
+            continue
+        r = check_sections(cls, paras)
+        if r:
+            if not collect:
+                return r
+            seen.setdefault(tuple(feats), r)
+    return seen if collect else None
+
+
 # ---- legacy PPT: record streams built natively -----------------------------------------------------
 def _rec(rtype, data=b"", ver=0, inst=0):
     return struct.pack("<HHI", (inst << 4) | ver, rtype, len(data)) + data
@@ -556,8 +649,9 @@ def sweeps_for(target):
         if f"{cls}." in t:
             out.append(("single:" + cls, lambda cls=cls: sweep_single(cls)))
     for cls in ("DocContent", "DocxContent", "OdtContent"):
-        if f"{cls}." in t:
+        if f"{cls}." in t or f"[{cls}]" in t:
             out.append(("heading:" + cls, lambda cls=cls: sweep_heading(cls)))
+            out.append(("sections:" + cls, lambda cls=cls: sweep_sections(cls, exclude=EXCLUDE.get(cls, ()))))
     if "_join_unit_text" in t:
         out.append(("join", sweep_join))
     if "_build_slides_from_text_blocks" in t:
@@ -588,14 +682,24 @@ def all_sweeps():
         out.append(("single:" + cls, lambda cls=cls: sweep_single(cls)))
     for cls in ("DocContent", "DocxContent", "OdtContent"):
         out.append(("heading:" + cls, lambda cls=cls: sweep_heading(cls)))
+        out.append(("sections:" + cls, lambda cls=cls: sweep_sections(cls, collect=True) or None))
     out += [("join", sweep_join), ("ppt_build", sweep_ppt_build), ("ppt_parse", sweep_ppt_parse), ("ppt_fixture", check_ppt_fixture),
             ("rtf", sweep_rtf), ("pptx", sweep_pptx), ("odp", sweep_odp), ("epub", sweep_epub), ("pdf", sweep_pdf), ("mbox", sweep_mbox)]
     return out
 
 
+EXCLUDE = {}      # class -> features excluded by recorded findings (filled from the request)
+
+
 def find(req):
     import logging
     logging.disable(logging.CRITICAL)
+    EXCLUDE.clear()
+    EXCLUDE.update(req.get("exclude_features") or {})
+    if req.get("known_finding"):
+        w = req.get("witness") or {}
+        r = check_sections(w["class"], w["paragraphs"])
+        return dict(r or {}, reproduced=r is not None)
     target = (req.get("function") or "") + " " + (req.get("obligation") or "")
     sw = sweeps_for(target)
     if not sw:
@@ -621,6 +725,8 @@ def rerun(stored):
         r = check_single(inp["class"], inp["text"], inp.get("html", ""))
     elif chk == "join":
         r = check_join(inp["unit_texts"])
+    elif chk == "sections":
+        r = check_sections(inp["class"], inp["paragraphs"])
     elif chk == "heading":
         r = check_heading(inp["class"], inp["paragraph_kinds"])
     elif chk == "ppt_parse":
